@@ -480,6 +480,13 @@ class Extracted:
         self.contracted = []    # function labels with a requires clause (vacuity canaries)
 
 
+def split_arm(spec):
+    m = re.match(r'(.*?)\s::\sarm\s+("(?:[^"\\]|\\.)*")\s*$', spec)
+    if m:
+        return m.group(1).strip(), unquote(m.group(2))
+    return spec, None
+
+
 def parse_itemspec(spec):
     parts = [p.strip() for p in spec.split('::')]
     # re-join: the impl header may contain '::' itself, so split on ' :: ' only
@@ -501,6 +508,8 @@ def process_extract(header, directives, ctx):
     if not m:
         raise Undecided('bad extract header: ' + header)
     fspec, ispec = m.group(1), m.group(2).strip()
+    ispec_full = ispec
+    ispec, arm = split_arm(ispec)
     kind, name, container = parse_itemspec(ispec)
     sf = load_source(fspec)
     found = sf.find(kind, name, container)
@@ -512,6 +521,40 @@ def process_extract(header, directives, ctx):
                sha256=hashlib.sha256(raw.encode()).hexdigest(), drops=[], inserts=0, opaque=False)
     text = raw
     label = name if container is None else name
+    if arm is not None:
+        # a match arm of the function, wrapped into a function of its free variables (`wrap` directive)
+        toks0 = lex(text)
+        pat = [t.text for t in lex(arm)]
+        hits = find_seq(toks0, pat)
+        if len(hits) != 1:
+            raise Undecided('arm %r of %s matches %d times' % (arm, name, len(hits)))
+        a = hits[0] + len(pat)
+        if toks0[a - 1].text != '=>':
+            raise Undecided('arm anchor must end with =>')
+        if toks0[a].text == '{':
+            e = match_close(toks0, a)
+        else:
+            e = a
+            while toks0[e + 1].text != ',' or False:
+                if toks0[e].text in OPEN:
+                    e = match_close(toks0, e)
+                if toks0[e + 1].text == '}':
+                    break
+                e += 1
+        body = text[toks0[a].start:toks0[e].end]
+        wraps = [d[1] for d in directives if d[0] == 'wrap']
+        if len(wraps) != 1 or '$BODY' not in wraps[0]:
+            raise Undecided('arm extraction needs exactly one `wrap` directive containing $BODY')
+        text = wraps[0].replace('$BODY', body)
+        raw = body
+        rec['sha256'] = hashlib.sha256(body.encode()).hexdigest()
+        rec['item'] = ispec_full
+        rec['drops'].append(('arm', 'match arm `%s` of %s' % (arm, name), 'wrapped as a function of its free variables'))
+        wm = re.search(r'fn\s+(\w+)', wraps[0])
+        label = wm.group(1) if wm else name
+        kind = 'fn'
+        if not any(d[0] == 'impl_header' for d in directives):
+            container = None
     # 1. mutant (if this run applies one)
     for d in directives:
         if d[0] == 'mutant':
@@ -580,6 +623,35 @@ def process_extract(header, directives, ctx):
                 if n < 1 or n > len(lps):
                     raise Undecided('%s: loop %d not found (%d loops)' % (name, n, len(lps)))
                 kw, hb = lps[n - 1]
+                if itername == 'indexed':
+                    # R13: `for PAT in X.iter() {` / `for PAT in X.chars() {`  ->  indexed while loop
+                    # (Verus' for-loops reject `continue`; the element order and count are those of the iterator)
+                    if toks[kw].text != 'for':
+                        raise Undecided('%s: loop %d is not a for loop' % (name, n))
+                    q = kw + 1
+                    while not (toks[q].kind == 'ident' and toks[q].text == 'in'):
+                        if toks[q].text in OPEN:
+                            q = match_close(toks, q)
+                        q += 1
+                    pat = text[toks[kw + 1].start:toks[q - 1].end]
+                    ex = text[toks[q + 1].start:toks[hb - 1].end]
+                    tail = [x.text for x in toks[hb - 4:hb]]
+                    if tail == ['.', 'iter', '(', ')']:
+                        base = text[toks[q + 1].start:toks[hb - 5].end]
+                        init = 'let it__%d = (%s).as_slice();' % (n, base)
+                        elem = '&it__%d[i__%d]' % (n, n)
+                    elif tail == ['.', 'chars', '(', ')']:
+                        base = text[toks[q + 1].start:toks[hb - 5].end]
+                        init = 'let it__%d = verif_chars_vec(%s);' % (n, base)
+                        elem = 'it__%d[i__%d]' % (n, n)
+                    else:
+                        raise Undecided('%s: loop %d: indexed form supports X.iter() / X.chars() only' % (name, n))
+                    head = '%s let mut i__%d: usize = 0; while i__%d < it__%d.len()' % (init, n, n, n)
+                    edits.append(Edit(toks[kw].start, toks[hb].start, head + ('\n' + payload + '\n' if payload else ' '), 'R13', ''))
+                    edits.append(Edit(toks[hb].end, toks[hb].end, ' let %s = %s; i__%d += 1;' % (pat, elem, n), 'R13', ''))
+                    rec['drops'].append(('R13', 'for %s in %s' % (pat, ex), 'indexed while over the same sequence'))
+                    rec['inserts'] += 1
+                    continue
                 if itername:
                     if toks[kw].text != 'for':
                         raise Undecided('%s: loop %d is not a for loop' % (name, n))
@@ -631,7 +703,7 @@ def process_extract(header, directives, ctx):
         for d in directives:
             if d[0] in ('ret', 'sig', 'loop', 'before', 'after', 'body_start', 'opaque_body', 'after_loop'):
                 raise Undecided('directive %s on non-fn item %s' % (d[0], ispec))
-    if container is not None and kind == 'fn':
+    if container is not None and kind == 'fn' and not any(d[0] == 'no_impl' for d in directives):
         hdr = None
         for imp in sf.items:
             if imp.kind == 'impl' and imp.first <= it.first and imp.last >= it.last:
@@ -738,8 +810,8 @@ def _assemble(unit_path, apply_mutant, vacuity, hooks, mutant_post):
                 elif c2 == 'body_start':
                     directives.append(('body_start', heredoc if heredoc is not None else r2))
                 elif c2 == 'loop':
-                    mm = re.match(r'(\d+)(?:\s+iter\s+(\w+))?\s*(.*)$', r2)
-                    directives.append(('loop', (int(mm.group(1)), heredoc if heredoc is not None else (mm.group(3) or None), mm.group(2))))
+                    mm = re.match(r'(\d+)(?:\s+iter\s+(\w+)|\s+(indexed))?\s*(.*)$', r2)
+                    directives.append(('loop', (int(mm.group(1)), heredoc if heredoc is not None else (mm.group(4) or None), mm.group(2) or mm.group(3))))
                 elif c2 == 'after_loop':
                     directives.append(('after_loop', (int(r2.split()[0]), heredoc if heredoc is not None else '')))
                 elif c2 in ('before', 'after'):
@@ -759,6 +831,10 @@ def _assemble(unit_path, apply_mutant, vacuity, hooks, mutant_post):
                 elif c2 == 'rule':
                     for r in r2.split():
                         directives.append(('rule', r))
+                elif c2 == 'no_impl':
+                    directives.append(('no_impl', None))
+                elif c2 == 'wrap':
+                    directives.append(('wrap', heredoc if heredoc is not None else r2))
                 elif c2 == 'opaque_body':
                     directives.append(('opaque_body', None))
                 elif c2 == 'impl_header':
